@@ -130,6 +130,9 @@ Section Refine.
   Variable S : schema.
   Variable junk : list Z.
   Hypothesis Hjunk : (9 <= length junk)%nat.
+  (* stack frames per JSON nesting level: 1 without map fields, 2 with (map frame + pair frame) *)
+  Variable dw : nat.
+  Hypothesis Hdw : (1 <= dw)%nat.
   Notation run := (J2P.run disallow S junk).
 
   Definition num_ok (n : Z) : Prop := ((1 <=? n) && (n <=? MAX_FIELD_NUMBER)) = true.
@@ -181,7 +184,9 @@ Section Refine.
 
   Definition md_ok (md : mdesc) : Prop :=
     forallb (fun fd => match fd_label fd with LMap _ => false | _ => true end) (md_fields md) = true.
-  Hypothesis Hnomap : forall name md, find_msg S name = Some md -> md_ok md.
+  Hypothesis Hmapdw : (forall name md, find_msg S name = Some md -> md_ok md) \/ (2 <= dw)%nat.
+  Lemma md_ok_or name md : find_msg S name = Some md -> md_ok md \/ (2 <= dw)%nat.
+  Proof. intro H. destruct Hmapdw as [Hn|Hn]; [left; exact (Hn _ _ H) | right; exact Hn]. Qed.
 
   Lemma field_not_map md k fd : md_ok md -> find_field_name md k = Some fd ->
     g_ismap (GField fd) = Some false.
@@ -199,18 +204,24 @@ Section Refine.
 
   Definition members_spec (rec : mdesc -> list (list Z * json) -> res pmsg) : Prop :=
     forall md ms fs top stk glob buf,
-      rec md ms = ROk fs -> md_ok md -> obj_frame top md ->
-      Forall (fun m => (length (top :: stk) + json_depth (snd m) <= DEPTH)%nat) ms ->
+      rec md ms = ROk fs -> (md_ok md \/ (2 <= dw)%nat) -> obj_frame top md ->
+      Forall (fun m => (length (top :: stk) + dw * json_depth (snd m) <= DEPTH)%nat) ms ->
       run (flat_map member_events ms) (mk_st (top :: stk) glob false O buf)
       = MOk (mk_st (top :: stk) (if has_known md ms then None else glob) false O (buf ++ encode_msg fs)).
 
-  Lemma depth_children {A} (f : A -> json) (l : list A) (L : nat) :
-    (L + Datatypes.S (fold_right (fun x m => Nat.max (json_depth (f x)) m) O l) <= DEPTH)%nat ->
-    Forall (fun x => (Datatypes.S L + json_depth (f x) <= DEPTH)%nat) l.
+  Lemma depth_children {A} (f : A -> json) (l : list A) (L extra : nat) :
+    (extra <= dw)%nat ->
+    (L + dw * Datatypes.S (fold_right (fun x m => Nat.max (json_depth (f x)) m) O l) <= DEPTH)%nat ->
+    Forall (fun x => (extra + L + dw * json_depth (f x) <= DEPTH)%nat) l.
   Proof.
-    intro H. apply Forall_forall. intros x Hin.
-    pose proof (fold_max_ge (fun y => json_depth (f y)) l x Hin) as Hm. cbn beta in Hm. lia.
+    intros He H. apply Forall_forall. intros x Hin.
+    pose proof (fold_max_ge (fun y => json_depth (f y)) l x Hin) as Hm. cbn beta in Hm.
+    rewrite Nat.mul_succ_r in H.
+    pose proof (Nat.mul_le_mono_l _ _ dw Hm). lia.
   Qed.
+
+  Lemma depth_push (L k : nat) : (L + dw * Datatypes.S k <= DEPTH)%nat -> (STK_DEPTH <=? L)%nat = false.
+  Proof. intro H. apply Nat.leb_gt. unfold STK_DEPTH. unfold DEPTH in H. rewrite Nat.mul_succ_r in H. lia. Qed.
 
   Section Level.
     Variable rec : mdesc -> list (list Z * json) -> res pmsg.
@@ -223,7 +234,7 @@ Section Refine.
       num_ok (fd_num fd) ->
       (glob = Some (GField fd) \/ (glob = None /\ fr_typ top = T_ARR /\ fr_fd top = Some (GField fd))) ->
       fr_typ top <> T_MAP ->
-      (length (top :: stk) + json_depth (JObj ms') <= DEPTH)%nat ->
+      (length (top :: stk) + dw * json_depth (JObj ms') <= DEPTH)%nat ->
       run (events (JObj ms')) (mk_st (top :: stk) glob false O buf)
       = MOk (mk_st (top :: stk) None false O (buf ++ wenc (wfld (fd_num fd) (VMsg fs')))).
     Proof.
@@ -239,7 +250,7 @@ Section Refine.
         rewrite Hfd, Hmap. cbn [g_num]. rewrite (append_tag_ok _ _ _ Hn).
         unfold push. cbn [set_buf m_stk m_buf m_glob m_inskip m_skipd].
         assert (Hl : (STK_DEPTH <=? length (top :: stk))%nat = false).
-        { apply Nat.leb_gt. unfold STK_DEPTH. unfold DEPTH in Hd. cbn [json_depth] in Hd. lia. }
+        { cbn [json_depth] in Hd. exact (depth_push _ _ Hd). }
         rewrite Hl. reflexivity. }
       rewrite Hstep. clear Hstep. rewrite run_app.
       set (tag := varint_enc (fd_num fd * 8 + 2)).
@@ -247,10 +258,10 @@ Section Refine.
       assert (Hof : obj_frame fr md').
       { split; [reflexivity|]. right. split; [reflexivity|]. exists (GField fd). split; [reflexivity|].
         cbn [g_message]. rewrite Ht, Hfm. reflexivity. }
-      assert (Hdep : Forall (fun m => (length (fr :: top :: stk) + json_depth (snd m) <= DEPTH)%nat) ms').
-      { cbn [json_depth] in Hd. apply (depth_children (fun m : list Z * json => snd m) ms' (length (top :: stk))). exact Hd. }
+      assert (Hdep : Forall (fun m => (length (fr :: top :: stk) + dw * json_depth (snd m) <= DEPTH)%nat) ms').
+      { cbn [json_depth] in Hd. apply (depth_children (fun m : list Z * json => snd m) ms' (length (top :: stk)) 1 Hdw). exact Hd. }
       change (flat_map (fun m : list Z * json => EvKey (fst m) :: events (snd m)) ms') with (flat_map member_events ms').
-      rewrite (Hrec md' ms' fs' fr (top :: stk) glob _ Hr (Hnomap _ _ Hfm) Hof Hdep).
+      rewrite (Hrec md' ms' fs' fr (top :: stk) glob _ Hr (md_ok_or _ _ Hfm) Hof Hdep).
       rewrite Hk. cbn [J2P.run]. unfold step. cbn [m_skipd]. unfold on_obj_end.
       cbn [m_inskip top_of m_stk hd]. unfold fr at 1. cbn [fr_pos]. rewrite plen_not_m1.
       cbn [m_buf]. unfold fr at 1. cbn [fr_pos].
@@ -297,7 +308,7 @@ Section Refine.
       forall xs vs glob buf,
         den_elems true S rec (fd_type fd) xs = ROk vs ->
         (glob = Some (GField fd) \/ glob = None) ->
-        Forall (fun x => (length (top :: stk) + json_depth x <= DEPTH)%nat) xs ->
+        Forall (fun x => (length (top :: stk) + dw * json_depth x <= DEPTH)%nat) xs ->
         run (flat_map events xs) (mk_st (top :: stk) glob false O buf)
         = MOk (mk_st (top :: stk) (match xs with [] => glob | _ => None end) false O (buf ++ elems_bytes (fd_num fd) (fd_type fd) vs)).
     Proof.
@@ -369,14 +380,14 @@ Section Refine.
       fd_label fd = LRepeated p -> num_ok (fd_num fd) -> fr_typ top <> T_MAP ->
       den_elems true S rec (fd_type fd) xs = ROk vs -> vs <> [] ->
       (type_numeric (fd_type fd) = true -> (plen (flat_map packed_elem vs) <? 2 ^ 31) = true) ->
-      (length (top :: stk) + json_depth (JArr xs) <= DEPTH)%nat ->
+      (length (top :: stk) + dw * json_depth (JArr xs) <= DEPTH)%nat ->
       run (events (JArr xs)) (mk_st (top :: stk) (Some (GField fd)) false O buf)
       = MOk (mk_st (top :: stk) None false O (buf ++ wenc (wfld (fd_num fd) (VList (type_numeric (fd_type fd)) vs)))).
     Proof.
       intros Hl Hn Htop Hd Hne Hsz Hdep.
       assert (Hxs : xs <> []) by (intro; subst xs; cbn in Hd; inversion Hd; subst; contradiction).
       assert (Hpush : (STK_DEPTH <=? length (top :: stk))%nat = false).
-      { apply Nat.leb_gt. unfold STK_DEPTH. unfold DEPTH in Hdep. cbn [json_depth] in Hdep. lia. }
+      { cbn [json_depth] in Hdep. exact (depth_push _ _ Hdep). }
       assert (Hm : (fr_typ top =? T_MAP) = false) by (apply Z.eqb_neq; exact Htop).
       cbn [events]. rewrite run_cons. unfold step at 1. cbn [m_skipd]. unfold on_arr_begin.
       cbn [m_inskip m_glob g_ispacked]. rewrite Hl.
@@ -387,8 +398,8 @@ Section Refine.
         set (tag := varint_enc (fd_num fd * 8 + 2)).
         set (fr := mk_frame T_ARR None (Some (GField fd)) (plen (buf ++ tag))).
         rewrite run_app.
-        assert (Hdc : Forall (fun x => (length (fr :: top :: stk) + json_depth x <= DEPTH)%nat) xs).
-        { cbn [json_depth] in Hdep. apply (depth_children (fun x : json => x) xs (length (top :: stk))). exact Hdep. }
+        assert (Hdc : Forall (fun x => (length (fr :: top :: stk) + dw * json_depth x <= DEPTH)%nat) xs).
+        { cbn [json_depth] in Hdep. apply (depth_children (fun x : json => x) xs (length (top :: stk)) 1 Hdw). exact Hdep. }
         rewrite (elems_ok fd p fr (top :: stk) Hl Hn eq_refl eq_refl xs vs (Some (GField fd)) _ Hd (or_introl eq_refl) Hdc).
         destruct xs as [|x0 xs0]; [contradiction|].
         cbn [J2P.run]. unfold step. cbn [m_skipd]. unfold on_arr_end. cbn [m_inskip top_of m_stk hd].
@@ -404,8 +415,8 @@ Section Refine.
         unfold push. cbn [m_stk]. rewrite Hpush. unfold set_stk. cbn [m_stk m_buf m_glob m_inskip m_skipd].
         set (fr := mk_frame T_ARR None (Some (GField fd)) (-1)).
         rewrite run_app.
-        assert (Hdc : Forall (fun x => (length (fr :: top :: stk) + json_depth x <= DEPTH)%nat) xs).
-        { cbn [json_depth] in Hdep. apply (depth_children (fun x : json => x) xs (length (top :: stk))). exact Hdep. }
+        assert (Hdc : Forall (fun x => (length (fr :: top :: stk) + dw * json_depth x <= DEPTH)%nat) xs).
+        { cbn [json_depth] in Hdep. apply (depth_children (fun x : json => x) xs (length (top :: stk)) 1 Hdw). exact Hdep. }
         rewrite (elems_ok fd p fr (top :: stk) Hl Hn eq_refl eq_refl xs vs (Some (GField fd)) _ Hd (or_introl eq_refl) Hdc).
         destruct xs as [|x0 xs0]; [contradiction|].
         cbn [J2P.run]. unfold step. cbn [m_skipd]. unfold on_arr_end. cbn [m_inskip top_of m_stk hd].
@@ -416,17 +427,207 @@ Section Refine.
         unfold elems_bytes. rewrite Hnum. cbn [wfld]. reflexivity.
     Qed.
 
+
+    (* ---------------------------------------------------------------- maps *)
+    Lemma encode_map_key_app buf s kk :
+      encode_map_key buf s kk = match encode_map_key [] s kk with Some b => Some (buf ++ b) | None => None end.
+    Proof.
+      unfold encode_map_key. cbn [app].
+      repeat match goal with |- context [if ?c then _ else _] => destruct c; try reflexivity end.
+    Qed.
+
+    Lemma denote_key_inv kk s key : denote_key true kk s = ROk key ->
+      encode_map_key [] s kk = Some (wenc_val (snd (key_field key))) /\ wt_of_wval (snd (key_field key)) = kwire kk.
+    Proof.
+      unfold denote_key. destruct (denote_key0 kk s) as [k0| |]; cbn [res_bind]; try discriminate.
+      destruct (key_agrees true kk s k0) eqn:Ha; [|discriminate]. intro H; inversion H; subst k0.
+      unfold key_agrees in Ha. cbn [negb orb] in Ha. apply andb_true_iff in Ha. destruct Ha as [H1 H2].
+      destruct (encode_map_key [] s kk) as [b|]; [|discriminate].
+      apply bytes_eqb_eq in H1. subst b. apply Z.eqb_eq in H2. auto.
+    Qed.
+
+    Lemma key_field_enc key : wenc_field (key_field key) = varint_enc (1 * 8 + wt_of_wval (snd (key_field key))) ++ wenc_val (snd (key_field key)).
+    Proof. unfold wenc_field. rewrite key_field_fst. reflexivity. Qed.
+
+    Lemma num_ok_1 : num_ok 1.  Proof. reflexivity. Qed.
+    Lemma num_ok_2 : num_ok 2.  Proof. reflexivity. Qed.
+
+    (* one map entry: pair tag, speculative length, key field, value field, pair length finished, pair frame popped *)
+    Lemma entry_ok fd kk ks x key v stk glob buf :
+      fd_label fd = LMap kk -> num_ok (fd_num fd) ->
+      denote_key true kk ks = ROk key -> den_single true S rec (fd_type fd) x = ROk v ->
+      (plen (wenc (key_field key :: wfld 2 v)) <? 2 ^ 31) = true ->
+      let mapfr := mk_frame T_MAP None (Some (GField fd)) (-1) in
+      (length (mapfr :: stk) + 1 + dw * json_depth x <= DEPTH)%nat ->
+      run (member_events (ks, x)) (mk_st (mapfr :: stk) glob false O buf)
+      = MOk (mk_st (mapfr :: stk) None false O (buf ++ wenc [(fd_num fd, WBytes (wenc (key_field key :: wfld 2 v)))])).
+    Proof.
+      intros Hl Hn Hk Hv Hsz mapfr Hdep.
+      destruct (denote_key_inv _ _ _ Hk) as [Hkb Hkw].
+      set (tag := varint_enc (fd_num fd * 8 + 2)).
+      set (pre := buf ++ tag).
+      set (hdr := wenc_field (key_field key)).
+      set (pair := mk_frame T_MAP None (Some (GField fd)) (plen pre)).
+      assert (Hpush : (STK_DEPTH <=? length (mapfr :: stk))%nat = false).
+      { apply Nat.leb_gt. unfold STK_DEPTH. unfold DEPTH in Hdep. lia. }
+      unfold member_events. cbn [fst snd]. rewrite run_cons.
+      assert (Hkey : step disallow S junk (EvKey ks) (mk_st (mapfr :: stk) glob false O buf)
+                     = MOk (mk_st (pair :: mapfr :: stk) (Some (GMapVal fd)) false O ((pre ++ [0]) ++ hdr))).
+      { unfold step. cbn [m_skipd]. unfold on_key. cbn [top_of m_stk hd]. unfold mapfr. cbn [fr_root fr_typ fr_fd].
+        cbn [Z.eqb T_OBJ T_MAP Pos.eqb]. rewrite Hl. cbn [m_buf]. rewrite (append_tag_ok _ _ _ Hn).
+        fold tag. fold pre. rewrite (append_tag_ok _ _ _ num_ok_1).
+        rewrite encode_map_key_app, Hkb. unfold push. cbn [set_buf m_stk m_buf m_glob m_inskip m_skipd].
+        cbn [length] in Hpush. cbn [length]. rewrite Hpush. unfold set_stk, set_glob. cbn [m_stk m_buf m_glob m_inskip m_skipd].
+        unfold hdr. rewrite key_field_enc, Hkw. rewrite <- !app_assoc. reflexivity. }
+      rewrite Hkey. clear Hkey.
+      assert (Hfin : forall vb, wenc (wfld 2 v) = vb ->
+                finish junk (((pre ++ [0]) ++ hdr) ++ vb) (plen pre)
+                = Some (buf ++ wenc [(fd_num fd, WBytes (wenc (key_field key :: wfld 2 v)))])).
+      { intros vb Hvb. rewrite <- (app_assoc (pre ++ [0])), <- (app_assoc pre [0]).
+        assert (HE : hdr ++ vb = wenc (key_field key :: wfld 2 v)) by (rewrite wenc_cons, Hvb; reflexivity).
+        rewrite HE. rewrite (finish_ok junk pre 0 _ Hjunk Hsz). rewrite wenc_single. cbn [wt_of_wval wenc_val].
+        unfold pre, tag. rewrite <- !app_assoc. reflexivity. }
+      unfold den_single in Hv. destruct (fd_type fd) as [k|name] eqn:Ht.
+      - (* scalar value *)
+        destruct (denote_scalar_inv _ _ _ Hv) as (e & l & Hev & Hsc & Hpv & Hpay & Hwt & Hstr & Hnum).
+        rewrite Hev. cbn [J2P.run]. rewrite step_scalar by (auto; reflexivity).
+        unfold on_scalar. cbn [m_inskip m_glob m_stk m_buf top_of hd g_islist g_num g_kind kind_of_type]. rewrite Ht. cbn [kind_of_type].
+        assert (Htag : (if is_str_ev e
+                        then match append_tag ((pre ++ [0]) ++ hdr) 2 (kwire k) with Some b => MOk (set_buf (mk_st (pair :: mapfr :: stk) (Some (GMapVal fd)) false O ((pre ++ [0]) ++ hdr)) b) | None => MErr end
+                        else match append_tag ((pre ++ [0]) ++ hdr) 2 (kwire k) with Some b => MOk (set_buf (mk_st (pair :: mapfr :: stk) (Some (GMapVal fd)) false O ((pre ++ [0]) ++ hdr)) b) | None => MErr end)
+                       = MOk (mk_st (pair :: mapfr :: stk) (Some (GMapVal fd)) false O (((pre ++ [0]) ++ hdr) ++ varint_enc (2 * 8 + kwire k)))).
+        { rewrite (append_tag_ok _ _ _ num_ok_2). destruct (is_str_ev e); reflexivity. }
+        rewrite Htag. clear Htag. rewrite Hpay. unfold set_buf. cbn [m_buf m_stk m_glob m_inskip m_skipd].
+        unfold on_value_end. cbn [m_stk m_glob m_buf]. unfold pair at 1. cbn [fr_typ Z.eqb T_MAP Pos.eqb].
+        unfold pair at 1. cbn [fr_pos].
+        rewrite <- (app_assoc ((pre ++ [0]) ++ hdr)).
+        rewrite (Hfin (varint_enc (2 * 8 + kwire k) ++ leaf_bytes k l)).
+        + unfold set_buf, set_stk, set_glob. cbn. reflexivity.
+        + subst v. rewrite wenc_leaf, Hwt. reflexivity.
+      - (* message value *)
+        destruct x as [| | | | |ms']; try discriminate.
+        destruct (find_msg S name) as [md'|] eqn:Hfm; [|discriminate].
+        destruct (has_known md' ms') eqn:Hkn; cbn [andb negb] in Hv; [|discriminate].
+        destruct (rec md' ms') as [fs'| |] eqn:Hr; cbn [res_bind] in Hv; try discriminate.
+        destruct (plen (encode_msg fs') <? 2 ^ 31) eqn:Hsz2; cbn [andb negb] in Hv; [|discriminate].
+        inversion Hv; subst v. clear Hv.
+        set (b3 := (pre ++ [0]) ++ hdr).
+        set (vtag := varint_enc (2 * 8 + 2)).
+        set (objfr := mk_frame T_OBJ None (Some (GMapVal fd)) (plen (b3 ++ vtag))).
+        cbn [events]. rewrite run_cons.
+        assert (Hbeg : step disallow S junk EvObjBegin (mk_st (pair :: mapfr :: stk) (Some (GMapVal fd)) false O b3)
+                       = MOk (mk_st (objfr :: pair :: mapfr :: stk) (Some (GMapVal fd)) false O ((b3 ++ vtag) ++ [0]))).
+        { unfold step. cbn [m_skipd]. unfold on_obj_begin. cbn [m_inskip m_glob g_ismap g_num m_buf].
+          rewrite (append_tag_ok _ _ _ num_ok_2). unfold push. cbn [set_buf m_stk m_buf m_glob m_inskip m_skipd].
+          assert (Hp2 : (STK_DEPTH <=? length (pair :: mapfr :: stk))%nat = false).
+          { apply Nat.leb_gt. unfold STK_DEPTH. unfold DEPTH in Hdep. cbn [json_depth] in Hdep. rewrite Nat.mul_succ_r in Hdep. cbn [length] in *. lia. }
+          rewrite Hp2. reflexivity. }
+        rewrite Hbeg. clear Hbeg. rewrite run_app.
+        change (flat_map (fun m : list Z * json => EvKey (fst m) :: events (snd m)) ms') with (flat_map member_events ms').
+        assert (Hof : obj_frame objfr md').
+        { split; [reflexivity|]. right. split; [reflexivity|]. exists (GMapVal fd). split; [reflexivity|].
+          cbn [g_message]. rewrite Ht, Hfm. reflexivity. }
+        assert (Hdc : Forall (fun m => (length (objfr :: pair :: mapfr :: stk) + dw * json_depth (snd m) <= DEPTH)%nat) ms').
+        { cbn [json_depth] in Hdep.
+          assert (Hd' : (length (mapfr :: stk) + 1 + dw * Datatypes.S (fold_right (fun x m => Nat.max (json_depth (snd x)) m) O ms') <= DEPTH)%nat) by exact Hdep.
+          pose proof (depth_children (fun m : list Z * json => snd m) ms' (length (mapfr :: stk) + 1) 1 Hdw Hd') as Hf.
+          eapply Forall_impl; [|exact Hf]. cbn beta. intros a Ha. cbn [length] in *. lia. }
+        rewrite (Hrec md' ms' fs' objfr (pair :: mapfr :: stk) _ _ Hr (md_ok_or _ _ Hfm) Hof Hdc).
+        rewrite Hkn. cbn [J2P.run]. unfold step. cbn [m_skipd]. unfold on_obj_end.
+        cbn [m_inskip top_of m_stk hd]. unfold objfr at 1. cbn [fr_pos]. rewrite plen_not_m1.
+        cbn [m_buf]. unfold objfr at 1. cbn [fr_pos].
+        rewrite <- (app_assoc (b3 ++ vtag) [0] (encode_msg fs')).
+        rewrite (finish_ok junk (b3 ++ vtag) 0 (encode_msg fs') Hjunk Hsz2).
+        unfold on_value_end. cbn [set_buf m_stk m_glob m_buf m_inskip m_skipd].
+        unfold objfr at 1. cbn [fr_typ Z.eqb T_OBJ Pos.eqb]. unfold pair at 1. cbn [fr_typ Z.eqb T_MAP Pos.eqb].
+        unfold pair at 1. cbn [fr_pos]. unfold b3.
+        rewrite <- (app_assoc ((pre ++ [0]) ++ hdr)).
+        rewrite (Hfin (vtag ++ varint_enc (plen (encode_msg fs')) ++ encode_msg fs')).
+        + unfold set_buf, set_stk. cbn. reflexivity.
+        + cbn [wfld]. rewrite wenc_single. cbn [wt_of_wval wenc_val]. unfold vtag, encode_msg, msg_wire. reflexivity.
+    Qed.
+
+    Lemma wenc_map {A} (f : A -> wfield) l : wenc (map f l) = flat_map (fun x => wenc [f x]) l.
+    Proof. induction l as [|x l IH]; [reflexivity|]. cbn [map flat_map]. rewrite wenc_cons, IH. unfold wenc at 2. cbn [flat_map]. rewrite app_nil_r. reflexivity. Qed.
+
+    Lemma entries_ok fd kk stk :
+      fd_label fd = LMap kk -> num_ok (fd_num fd) ->
+      let mapfr := mk_frame T_MAP None (Some (GField fd)) (-1) in
+      forall ms kvs glob buf,
+        den_entries true S rec kk (fd_type fd) ms = ROk kvs ->
+        forallb (fun kx => plen (wenc (key_field (fst kx) :: wfld 2 (snd kx))) <? 2 ^ 31) kvs = true ->
+        Forall (fun m => (length (mapfr :: stk) + 1 + dw * json_depth (snd m) <= DEPTH)%nat) ms ->
+        run (flat_map member_events ms) (mk_st (mapfr :: stk) glob false O buf)
+        = MOk (mk_st (mapfr :: stk) (match ms with [] => glob | _ => None end) false O (buf ++ wenc (wfld (fd_num fd) (VMap kvs)))).
+    Proof.
+      intros Hl Hn mapfr. subst mapfr. induction ms as [|[ks x] r IH]; intros kvs glob buf Hd Hsz Hdep.
+      - cbn in Hd. inversion Hd; subst kvs. cbn. rewrite app_nil_r. reflexivity.
+      - cbn [den_entries] in Hd.
+        destruct (denote_key true kk ks) as [key| |] eqn:Hk; cbn [res_bind] in Hd; try discriminate.
+        destruct (den_single true S rec (fd_type fd) x) as [v| |] eqn:Hv; cbn [res_bind] in Hd; try discriminate.
+        destruct (den_entries true S rec kk (fd_type fd) r) as [kvs'| |] eqn:Hr; cbn [res_bind] in Hd; try discriminate.
+        inversion Hd; subst kvs. clear Hd.
+        cbn [forallb fst snd] in Hsz. apply andb_true_iff in Hsz. destruct Hsz as [Hs1 Hs2].
+        inversion Hdep as [|? ? Hdx Hdr]; subst. cbn [snd] in Hdx.
+        change (flat_map member_events ((ks, x) :: r)) with (member_events (ks, x) ++ flat_map member_events r).
+        rewrite run_app.
+        rewrite (entry_ok fd kk ks x key v stk glob buf Hl Hn Hk Hv Hs1 Hdx).
+        rewrite (IH kvs' None _ eq_refl Hs2 Hdr).
+        f_equal. f_equal.
+        + destruct r; reflexivity.
+        + rewrite <- app_assoc. f_equal. cbn [wfld map fst snd]. rewrite (wenc_cons _ (map _ kvs')).
+          unfold wenc at 1. cbn [flat_map]. rewrite app_nil_r. reflexivity.
+    Qed.
+
+    Lemma den_entries_nil kk t ms : den_entries true S rec kk t ms = ROk [] -> ms = [].
+    Proof.
+      destruct ms as [|[k x] ms]; [reflexivity|]. cbn [den_entries].
+      destruct (denote_key true kk k); cbn [res_bind]; try discriminate.
+      destruct (den_single true S rec t x); cbn [res_bind]; try discriminate.
+      destruct (den_entries true S rec kk t ms); cbn [res_bind]; discriminate.
+    Qed.
+
+    (* an object value of a map field: map frame, entries, pop *)
+    Lemma map_field_ok fd kk ms kvs top stk buf :
+      (2 <= dw)%nat ->
+      fd_label fd = LMap kk -> num_ok (fd_num fd) ->
+      den_entries true S rec kk (fd_type fd) ms = ROk kvs -> kvs <> [] ->
+      forallb (fun kx => plen (wenc (key_field (fst kx) :: wfld 2 (snd kx))) <? 2 ^ 31) kvs = true ->
+      (length (top :: stk) + dw * json_depth (JObj ms) <= DEPTH)%nat ->
+      run (events (JObj ms)) (mk_st (top :: stk) (Some (GField fd)) false O buf)
+      = MOk (mk_st (top :: stk) None false O (buf ++ wenc (wfld (fd_num fd) (VMap kvs)))).
+    Proof.
+      intros H2 Hl Hn Hd Hne Hsz Hdep.
+      assert (Hms : ms <> []) by (intro; subst ms; cbn in Hd; inversion Hd; subst; contradiction).
+      cbn [events]. rewrite run_cons. unfold step at 1. cbn [m_skipd]. unfold on_obj_begin.
+      cbn [m_inskip m_glob g_ismap]. rewrite Hl. unfold push. cbn [m_stk].
+      cbn [json_depth] in Hdep. rewrite (depth_push _ _ Hdep). unfold set_stk. cbn [m_stk m_buf m_glob m_inskip m_skipd].
+      rewrite run_app.
+      change (flat_map (fun m : list Z * json => EvKey (fst m) :: events (snd m)) ms) with (flat_map member_events ms).
+      set (mapfr := mk_frame T_MAP None (Some (GField fd)) (-1)).
+      assert (Hdc : Forall (fun m => (length (mapfr :: top :: stk) + 1 + dw * json_depth (snd m) <= DEPTH)%nat) ms).
+      { pose proof (depth_children (fun m : list Z * json => snd m) ms (length (top :: stk)) 2 H2 Hdep) as Hf.
+        eapply Forall_impl; [|exact Hf]. cbn beta. intros a Ha. cbn [length] in *. lia. }
+      rewrite (entries_ok fd kk (top :: stk) Hl Hn ms kvs _ _ Hd Hsz Hdc).
+      destruct ms as [|m0 ms0]; [contradiction|].
+      cbn [J2P.run]. unfold step. cbn [m_skipd]. unfold on_obj_end. cbn [m_inskip top_of m_stk hd].
+      cbn [fr_pos Z.eqb Pos.eqb]. unfold on_value_end. cbn [m_stk m_glob].
+      cbn [fr_typ Z.eqb T_OBJ T_ARR T_MAP Pos.eqb orb].
+      unfold set_stk. cbn. reflexivity.
+    Qed.
+
     (* the value of a known, non-null member *)
     Lemma field_ok md k fd v ov top stk buf :
-      md_ok md -> find_field_name md k = Some fd -> num_ok (fd_num fd) ->
+      (md_ok md \/ (2 <= dw)%nat) -> find_field_name md k = Some fd -> num_ok (fd_num fd) ->
       den_field true S rec fd v = ROk ov -> fr_typ top = T_OBJ ->
-      (length (top :: stk) + json_depth v <= DEPTH)%nat ->
+      (length (top :: stk) + dw * json_depth v <= DEPTH)%nat ->
       run (events v) (mk_st (top :: stk) (Some (GField fd)) false O buf)
       = MOk (mk_st (top :: stk) None false O (buf ++ match ov with Some pv => wenc (wfld (fd_num fd) pv) | None => [] end)).
     Proof.
       intros Hmd Hf Hn Hd Hto Hdep.
       assert (Htop : fr_typ top <> T_MAP) by (rewrite Hto; discriminate).
-      pose proof (field_not_map md k fd Hmd Hf) as Hnm.
+      assert (Hnm : fd_label fd = LSingular \/ (exists p, fd_label fd = LRepeated p) -> g_ismap (GField fd) = Some false)
+        by (intros [H|[p H]]; cbn [g_ismap]; rewrite H; reflexivity).
       unfold den_field in Hd. destruct (fd_label fd) as [|p|kk] eqn:Hl.
       - (* singular *)
         destruct (den_single true S rec (fd_type fd) v) as [pv| |] eqn:Hs; cbn [res_bind] in Hd; try discriminate.
@@ -438,7 +639,7 @@ Section Refine.
           destruct (rec md' ms') as [fs'| |] eqn:Hr; cbn [res_bind] in Hs; try discriminate.
           destruct (plen (encode_msg fs') <? 2 ^ 31) eqn:Hsz; cbn [andb negb] in Hs; [|discriminate].
           inversion Hs; subst pv.
-          apply (msg_value_ok fd name md' ms' fs' top stk _ buf Ht Hnm Hfm Hk Hr Hsz Hn (or_introl eq_refl) Htop Hdep).
+          apply (msg_value_ok fd name md' ms' fs' top stk _ buf Ht (Hnm (or_introl eq_refl)) Hfm Hk Hr Hsz Hn (or_introl eq_refl) Htop Hdep).
       - (* repeated *)
         destruct v as [| | | |xs|]; try discriminate.
         destruct (den_elems true S rec (fd_type fd) xs) as [vs| |] eqn:He; cbn [res_bind] in Hd; try discriminate.
@@ -455,7 +656,17 @@ Section Refine.
             by (rewrite Hnum; discriminate).
           rewrite (repeated_ok fd p xs (v0 :: vs0) top stk buf Hl Hn Htop He Hne Hs' Hdep).
           rewrite Hnum. reflexivity.
-      - cbn [g_ismap] in Hnm. rewrite Hl in Hnm. discriminate.
+      - (* map *)
+        destruct Hmd as [Hmd|H2].
+        + pose proof (field_not_map md k fd Hmd Hf) as Hc. cbn [g_ismap] in Hc. rewrite Hl in Hc. discriminate.
+        + destruct v as [| | | | |ms]; try discriminate.
+          destruct (den_entries true S rec kk (fd_type fd) ms) as [kvs| |] eqn:He; cbn [res_bind] in Hd; try discriminate.
+          destruct kvs as [|kv0 kvs0]; [discriminate|]. cbn [andb] in Hd.
+          destruct (forallb (fun kx => plen (wenc (key_field (fst kx) :: wfld 2 (snd kx))) <? 2 ^ 31) (kv0 :: kvs0)) eqn:Hsz;
+            cbn [negb] in Hd; [|discriminate].
+          inversion Hd; subst ov.
+          assert (Hne : kv0 :: kvs0 <> []) by discriminate.
+          exact (map_field_ok fd kk ms (kv0 :: kvs0) top stk buf H2 Hl Hn He Hne Hsz Hdep).
     Qed.
 
     Lemma on_key_obj top md key stk glob buf :
@@ -514,7 +725,7 @@ Section Refine.
   Lemma sax_run_ok root md ms fs :
     find_msg S root = Some md ->
     denote_members true disallow S (json_depth (JObj ms)) md ms = ROk fs ->
-    (json_depth (JObj ms) <= DEPTH)%nat ->
+    (dw * json_depth (JObj ms) <= DEPTH)%nat ->
     sax_run disallow S root junk (events (JObj ms)) = OOk (encode_msg fs).
   Proof.
     intros Hf Hd Hdep. unfold sax_run. rewrite Hf. cbn [events]. rewrite run_cons.
@@ -523,9 +734,9 @@ Section Refine.
     change (flat_map (fun m : list Z * json => EvKey (fst m) :: events (snd m)) ms) with (flat_map member_events ms).
     set (top := mk_frame T_OBJ (Some md) None (-1)).
     assert (Hof : obj_frame top md) by (split; [reflexivity | left; reflexivity]).
-    assert (Hdc : Forall (fun m => (length (top :: []) + json_depth (snd m) <= DEPTH)%nat) ms).
-    { cbn [json_depth] in Hdep. apply (depth_children (fun m : list Z * json => snd m) ms O). exact Hdep. }
-    rewrite (members_all _ md ms fs top [] None [] Hd (Hnomap _ _ Hf) Hof Hdc).
+    assert (Hdc : Forall (fun m => (length (top :: []) + dw * json_depth (snd m) <= DEPTH)%nat) ms).
+    { cbn [json_depth] in Hdep. apply (depth_children (fun m : list Z * json => snd m) ms O 1 Hdw). exact Hdep. }
+    rewrite (members_all _ md ms fs top [] None [] Hd (md_ok_or _ _ Hf) Hof Hdc).
     cbn [J2P.run]. unfold step. cbn [m_skipd]. unfold on_obj_end. cbn [m_inskip top_of m_stk hd].
     unfold top at 1. cbn [fr_pos Z.eqb Pos.eqb]. unfold on_value_end. cbn [m_stk m_glob].
     destruct (has_known md ms); cbn [m_stk length Nat.eqb m_buf app]; reflexivity.
@@ -538,16 +749,31 @@ Proof.
   unfold nomap_schema in H. rewrite forallb_forall in H. exact (H _ Hin).
 Qed.
 
-(* REFINEMENT (partial: schemas without map fields).  For every document of the strict domain — it denotes a
-   message, has no null member, no empty container, no leaf on which the converter's conversion differs (all
-   decidable, evaluated per case by the checker) — nested at most to the converter's stack limit, the SAX machine
-   as coded yields exactly the canonical encoding of the denoted message: every tag, every packed run and every
-   length prefix at every depth, for every size (finish_spec_correct inside the induction over the JSON AST), for
-   every content of the spare capacity seen by FinishSpeculativeLength.
-   Missing for the full statement: map fields (OnObjectKey's pair frames); the proof structure (msg_value_ok with a
-   map-pair parent, an entries loop like elems_ok) is the same, the checker evaluates the claim on every case
-   (verdict code 90) including maps. *)
-Theorem sax_refines_spec_partial disallow S root ms m junk :
+(* REFINEMENT.  For every document of the strict domain — it denotes a message, has no null member, no empty
+   container, no leaf / map key on which the converter's conversion differs (all decidable, evaluated per case by the
+   checker) — nested at most to the converter's stack limit, the SAX machine as coded yields exactly the canonical
+   encoding of the denoted message: every tag, every packed run, every map pair and every length prefix at every
+   depth, for every size (finish_spec_correct inside the induction over the JSON AST), for every content of the
+   spare capacity seen by FinishSpeculativeLength.
+   The stack limit: 256 frames; a nesting level costs one frame (message, list) or two (map: map frame + pair frame),
+   hence JSON depth <= 128 in general and <= 256 for schemas without map fields. *)
+Theorem sax_refines_spec disallow S root ms m junk :
+  (9 <= length junk)%nat ->
+  denote_top true disallow S root (JObj ms) = ROk m ->
+  (json_depth (JObj ms) <= 128)%nat ->
+  sax_run disallow S root junk (events (JObj ms)) = OOk (encode_msg m).
+Proof.
+  intros Hj Hd Hdep. unfold denote_top in Hd.
+  destruct (find_msg S root) as [md|] eqn:Hf; [|discriminate].
+  destruct (denote_members true disallow S (json_depth (JObj ms)) md ms) as [fs| |] eqn:Hm; cbn [res_bind] in Hd; try discriminate.
+  destruct (wf_msg S root fs); [|discriminate]. inversion Hd; subst m.
+  assert (H2 : (1 <= 2)%nat) by lia.
+  assert (Hmd : (forall name md, find_msg S name = Some md -> md_ok md) \/ (2 <= 2)%nat) by (right; lia).
+  refine (sax_run_ok disallow S junk Hj 2%nat H2 Hmd root md ms fs Hf Hm _).
+  unfold DEPTH. lia.
+Qed.
+
+Theorem sax_refines_spec_nomap disallow S root ms m junk :
   nomap_schema S = true -> (9 <= length junk)%nat ->
   denote_top true disallow S root (JObj ms) = ROk m ->
   (json_depth (JObj ms) <= 256)%nat ->
@@ -557,7 +783,9 @@ Proof.
   destruct (find_msg S root) as [md|] eqn:Hf; [|discriminate].
   destruct (denote_members true disallow S (json_depth (JObj ms)) md ms) as [fs| |] eqn:Hm; cbn [res_bind] in Hd; try discriminate.
   destruct (wf_msg S root fs); [|discriminate]. inversion Hd; subst m.
-  exact (sax_run_ok disallow S junk Hj (nomap_md_ok S Hnm) root md ms fs Hf Hm Hdep).
+  assert (H1 : (1 <= 1)%nat) by lia.
+  refine (sax_run_ok disallow S junk Hj 1%nat H1 (or_introl (nomap_md_ok S Hnm)) root md ms fs Hf Hm _).
+  unfold DEPTH. lia.
 Qed.
 
 (* ------------------------------------------------------------------ the strict domain is inside the property's domain *)
@@ -574,11 +802,8 @@ Section StrictLax.
 
   Lemma key_sl kk s key : denote_key true kk s = ROk key -> denote_key false kk s = ROk key.
   Proof.
-    unfold denote_key. destruct (kk =? 9); [auto|]. destruct (kk =? 8); [auto|].
-    destruct ((kk =? 5) || (kk =? 3) || (kk =? 13) || (kk =? 4)); [|auto].
-    destruct (parse_int s) as [z|]; [|auto]. cbn [negb orb].
-    destruct (bytes_eqb (fmt_int z) s && scalar_okb kk z); cbn [andb]; [|discriminate].
-    destruct (in_sb _ z); [auto|discriminate].
+    unfold denote_key. destruct (denote_key0 kk s) as [k0| |]; cbn [res_bind]; auto.
+    destruct (key_agrees true kk s k0); [|discriminate]. unfold key_agrees. cbn [negb orb]. auto.
   Qed.
 
   Section Level.
@@ -672,17 +897,17 @@ Proof.
 Qed.
 
 (* refinement + domain inclusion + decoding, in one statement *)
-Theorem sax_refines_spec_partial_decodes d S root ms m junk fuel :
-  nomap_schema S = true -> (9 <= length junk)%nat ->
+Theorem sax_refines_spec_decodes d S root ms m junk fuel :
+  (9 <= length junk)%nat ->
   denote_top true d S root (JObj ms) = ROk m ->
-  (json_depth (JObj ms) <= 256)%nat -> (depth (VMsg m) <= fuel)%nat ->
+  (json_depth (JObj ms) <= 128)%nat -> (depth (VMsg m) <= fuel)%nat ->
   exists b, sax_run d S root junk (events (JObj ms)) = OOk b /\
             j2p_spec d S root (JObj ms) = ROk b /\ decode_msg S fuel root b = Some m.
 Proof.
-  intros Hn Hj Hd Hdep Hf. exists (encode_msg m).
+  intros Hj Hd Hdep Hf. exists (encode_msg m).
   pose proof (strict_in_domain d S root (JObj ms) m Hd) as Hp.
   destruct (j2p_output_decodes d S root (JObj ms) m fuel Hp Hf) as [H1 H2].
-  split; [exact (sax_refines_spec_partial d S root ms m junk Hn Hj Hd Hdep)|]. split; assumption.
+  split; [exact (sax_refines_spec d S root ms m junk Hj Hd Hdep)|]. split; assumption.
 Qed.
 
 (* kind mismatch: a value whose JSON kind contradicts the field makes the denotation an error, wherever it occurs
